@@ -175,6 +175,8 @@ def run(ctx):
     prog = ctx.prog
     ctx.rule("R1", "no panic for lack of context: at every XBuilder::build() call all fields that fallible_build requires "
                    "have been set on every path; Span::load is not reachable from event emission")
+    ctx.rule("R3", "what is logged parses back: the qlog ConnectionID parser refuses exactly the lengths a connection id cannot have "
+                   "(error iff len > MAX_CID_SIZE = 20), so every id the serialiser can emit is accepted")
     ctx.rule("R2", "observational: event-data closures (evaluated only when a filter passes) capture nothing by mutable borrow")
 
     # ---------------------------------------------------------------- R1: required sets
@@ -312,3 +314,23 @@ def run(ctx):
                "behaviour depend on whether logging is enabled" % ([(c["place"], c["kind"]) for c in caps][:8]))
     ctx.floor("R2", "event! data closures", n_cl, 55)
     ctx.assume("derive_builder's generated fallible_build returns Err exactly for unset fields without a default")
+
+    # ---------------------------------------------------------------- R3
+    de = ctx.anchor("R3", "<qevent::quic::ConnectionID as serde_core::de::Deserialize>::deserialize")
+    if de:
+        errs = [i for i, t in de.calls() if re.search(r"de::Error>::custom$|Error::custom$", callee(t))]
+        ctx.floor("R3", "custom error sites in ConnectionID::deserialize", len(errs), 1)
+        for i in errs:
+            g = guard_cmp(de, i)
+            ok, why = False, "no comparison recognised"
+            if g is not None:
+                (sw, op, x, y) = g
+                cx, cy = const_int(x), const_int(y)
+                rx_, ry_ = value_roles(de, x), value_roles(de, y)
+                if cy is not None and any("len" in r for r in rx_):
+                    ok, why = (op == "Gt" and cy == 20) or (op == "Ge" and cy == 21), "error when len %s %d" % (op, cy)
+                elif cx is not None and any("len" in r for r in ry_):
+                    ok, why = (op == "Lt" and cx == 20) or (op == "Le" and cx == 21), "error when %d %s len" % (cx, op)
+            ctx.ob("R3", "%s|'too long' exactly for len > 20" % de.short, ok, de.where(),
+                   "%s — a 20-byte connection id (the RFC 9000 maximum, e.g. a peer's NEW_CONNECTION_ID or initial_source_connection_id) "
+                   "is emitted by the serialiser but the event then fails to parse back" % why)
